@@ -245,15 +245,28 @@ def run(prog: Program, res: Result, tier: str) -> None:
     key = "prep_outfile:depth"
     ok3 = False
     if len(ctor) == 1:
+        from ..pathcond import path_conditions as _pc3
+        from ..poly import PolyEnv as _PE
+        from ..normalform import canon as _canon3
         nb = [k.value for k in ctor[0].keywords if k.arg == "nbits"]
-        sets = [s for s in body_walk(prep.node) if isinstance(s, ast.Assign) and norm(s.targets[0]) == "updates['nbits']"]
-        g_ok = len(sets) == 1 and norm(sets[0].value) == "nbits" and isinstance(parent(sets[0]), ast.If) and \
-            norm(parent(sets[0]).test) == "nbits != self.nbits"
-        dflt = [s for s in body_walk(prep.node) if isinstance(s, ast.Assign) and norm(s.targets[0]) == "nbits" and norm(s.value) == "self.nbits"
-                and isinstance(parent(s), ast.If) and norm(parent(s).test) == "nbits is None"]
-        newh = [c for c in calls_in_body(prep.node) if (dotted(c.func) or "").endswith("new_header") and c.args and norm(c.args[0]) == "updates"]
-        ok3 = bool(nb) and norm(nb[0]) == "nbits" and g_ok and len(dflt) == 1 and len(newh) == 1 and \
-            fl.cfg.dominates(fl.cfg.node_for(sets[0].__class__ and parent(sets[0])), fl.cfg.node_for(newh[0]))
+        newh = [c for c in calls_in_body(prep.node) if (dotted(c.func) or "").endswith("new_header") and c.args and isinstance(c.args[0], ast.Name)]
+        if nb and len(newh) == 1:
+            dname = newh[0].args[0].id
+            w_ex = fl.expand(nb[0], fl.cfg.node_for(ctor[0]))            # the depth the writer packs with
+            w_txt = _canon3(w_ex)
+            # the same value is recorded in the header updates whenever it differs from the input depth
+            sets = [s_ for s_ in body_walk(prep.node) if isinstance(s_, ast.Assign) and len(s_.targets) == 1 and isinstance(s_.targets[0], ast.Subscript)
+                    and norm(s_.targets[0].value) == dname and norm(s_.targets[0].slice) == "'nbits'"]
+            pc3 = _pc3(fl)
+            diff = _PE().poly(w_ex) - _PE().poly(ast.parse("self.nbits", mode="eval").body)
+            ok3 = len(sets) == 1 and _canon3(fl.expand(sets[0].value, fl.cfg.node_for(sets[0]))) == w_txt
+            if ok3:
+                f3 = pc3.knows(sets[0], "!=0", diff)
+                # recorded exactly when it differs (no other condition), decided before the header is derived, written before the writer is made
+                others = [f for f in pc3.facts_at(sets[0]) if f is not f3 and f.test_node == (f3.test_node if f3 else -1)]
+                ok3 = f3 is not None and not others and len([f for f in pc3.facts_at(sets[0])]) == len([f for f in pc3.facts_at(fl.cfg.node_for(newh[0]))]) + 1 and \
+                    fl.cfg.dominates(f3.test_node, fl.cfg.node_for(newh[0])) and \
+                    not fl.cfg.reachable(fl.cfg.node_for(newh[0])) & {fl.cfg.node_for(sets[0])}
     if ok3:
         res.ok("R3", prep, ctor[0], "writer depth and header nbits are the same value on every path", key=key)
     else:
